@@ -190,11 +190,19 @@ pub fn gen_c03(rng: &mut Rng, d: &mut Dist, _idx: u64) -> Vec<String> {
         let acks = *rng.pick(&[1i64, 1, -1, 0]);
         let nrec = 1 + rng.below(10);
         let mut line = format!("OP c produce {} 1 0", acks);
-        for _ in 0..nrec {
+        // now and then a partition's set grows past the compressors' internal buffers with data that does not compress
+        let big = rng.chance(1, 8);
+        for i in 0..nrec {
             let t = rng.pick(&cl.topics);
             let p = rng.below(t.leaders.len() as u64);
             let k = payload(rng, d);
-            let v = payload(rng, d);
+            let v = if big && i == 0 {
+                bump(d, "payload-64KiB-plus-noise");
+                let n = 66_000 + rng.below(60_000) as usize;
+                Some(rng.bytes(n))
+            } else {
+                payload(rng, d)
+            };
             line.push_str(&format!(" {} {} {} {}", h(&t.name), p, opt_tok(&k), opt_tok(&v)));
         }
         out.push(line);
@@ -426,7 +434,30 @@ impl Cluster {
 
 /// C10: arbitrary well-formed content through every response type: unusual node ids / ports / UTF-8 names,
 /// extreme offsets and high-watermarks, committed offsets incl. none, several brokers, response orders.
-pub fn gen_c10(rng: &mut Rng, d: &mut Dist, _idx: u64) -> Vec<String> {
+pub fn gen_c10(rng: &mut Rng, d: &mut Dist, idx: u64) -> Vec<String> {
+    // arrays around the decoders' internal limits (the pre-allocation cap is 4096 elements): every element must arrive
+    if idx % 149 == 5 && idx < 1200 {
+        let n = [4097usize, 4096, 5000, 4095][((idx / 149) % 4) as usize];
+        bump(d, &format!("array-of-{}", n));
+        let mut out = vec![format!("BROKER 1 {} 9092", h("b1")), format!("TOPIC {} {}", h("big"), n)];
+        for p in 0..n {
+            out.push(format!("LEADER {} {} 1", h("big"), p));
+        }
+        out.push("COORD 1".into());
+        out.push(format!("HW {} {} 77", h("big"), n - 1));
+        out.push(format!("COMMITTED {} {} {} 5", h("grp"), h("big"), n - 1));
+        if rng.chance(1, 2) {
+            out.push("ORDER rev".into());
+        }
+        out.push(format!("OP client_new {}", h("b1:9092")));
+        out.push("OP c set storage kafka".into());
+        out.push("OP c load_metadata_all".into());
+        out.push("OP c topics".into());
+        out.push(format!("OP c fetch_offsets -1 {}", h("big")));
+        out.push(format!("OP c list_offsets -2 {}", h("big")));
+        out.push(format!("OP c fetch_group_topic_offset {} {}", h("grp"), h("big")));
+        return out;
+    }
     let maxp = *rng.pick(&[1u64, 3, 5]);
     let mut cl = Cluster::random_wild(rng, maxp, true);
     // −1 as a node id would read as "no leader": avoid it (documented protocol meaning)
@@ -696,6 +727,36 @@ pub fn gen_c14(rng: &mut Rng, d: &mut Dist, idx: u64) -> Vec<String> {
     // a follow-up call: must still work and go to the right coordinator
     out.push(format!("SCRIPT {}", target));
     out.push(format!("OP c fetch_group_offsets {} {} 0", h("grp"), h(&t.name)));
+    // the metadata is dropped and loaded again while a coordinator is remembered - from a cluster that has lost brokers,
+    // or whose coordinator was never in the metadata: what is remembered must not be trusted blindly
+    if rng.chance(1, 3) {
+        match rng.below(3) {
+            0 => {
+                bump(d, "reload-after-broker-loss");
+                for b in cl.brokers.iter().skip(1) {
+                    out.push(format!("DELBROKER {}", b.0));
+                }
+                for (ti, tt) in cl.topics.iter().enumerate() {
+                    for p in 0..tt.leaders.len() {
+                        let _ = ti;
+                        out.push(format!("LEADER {} {} {}", h(&tt.name), p, cl.brokers[0].0));
+                    }
+                }
+                out.push(format!("COORD {}", cl.brokers[0].0));
+            }
+            1 => {
+                bump(d, "reload-plain");
+            }
+            _ => {
+                bump(d, "reload-after-reset-only");
+                out.push("OP c reset_metadata".into());
+                out.push(format!("OP c fetch_group_offsets {} {} 0", h("grp"), h(&t.name)));
+            }
+        }
+        out.push("OP c load_metadata_all".into());
+        out.push(format!("OP c fetch_group_offsets {} {} 0", h("grp"), h(&t.name)));
+        out.push(format!("OP c commit_offsets {} {} 0 6", h("grp"), h(&t.name)));
+    }
     out
 }
 
@@ -729,7 +790,7 @@ pub fn gen_c20(rng: &mut Rng, d: &mut Dist, _idx: u64) -> Vec<String> {
         let p = match rng.below(8) {
             0 => {
                 bump(d, "partition-out-of-range");
-                np + rng.below(3) as i64
+                np + rng.below(4) as i64
             }
             1 => {
                 bump(d, "partition-negative");
@@ -741,6 +802,23 @@ pub fn gen_c20(rng: &mut Rng, d: &mut Dist, _idx: u64) -> Vec<String> {
     };
     let nops = 4 + rng.below(10);
     for _ in 0..nops {
+        // the cluster changes under the client: a topic loses or gains partitions between loads
+        if rng.chance(1, 6) {
+            let ti = rng.below(cl.topics.len() as u64) as usize;
+            let old = cl.topics[ti].leaders.len();
+            let n = if old > 1 && rng.chance(2, 3) { 1 + rng.below(old as u64 - 1) as usize } else { old + 1 + rng.below(2) as usize };
+            bump(d, if n < old { "cluster-topic-shrinks" } else { "cluster-topic-grows" });
+            let first = cl.brokers[0].0;
+            cl.topics[ti].leaders.resize(n, first);
+            out.push(format!("TOPIC {} {}", h(&cl.topics[ti].name), n));
+            for p in old..n {
+                out.push(format!("LEADER {} {} {}", h(&cl.topics[ti].name), p, first));
+            }
+            // and is then re-loaded on its own (no reset), or everything is
+            if rng.chance(2, 3) {
+                out.push(format!("OP c load_metadata {}", h(&cl.topics[ti].name)));
+            }
+        }
         match rng.below(12) {
             0 => {
                 bump(d, "hist-load-all");
@@ -866,7 +944,24 @@ pub fn gen_c16(rng: &mut Rng, d: &mut Dist, _idx: u64) -> Vec<String> {
     }
     let from_client = rng.chance(1, 2);
     bump(d, if from_client { "from-client" } else { "from-hosts" });
-    let durations = ["0:0", "0:100000000", "1:999999999", "2147483:647000000", "2147483:648000000", "4294967296:0", "18446744073709551615:999999999"];
+    // boundaries of the wire field (i32 milliseconds), of u64 milliseconds (2^64 ms = 18446744073709551.616 s: values just
+    // above it wrap to small numbers when truncated), of u64 seconds
+    let durations = [
+        "0:0",
+        "0:100000000",
+        "1:999999999",
+        "2147483:647000000",
+        "2147483:648000000",
+        "4294967296:0",
+        "18446744073709551:615000000",
+        "18446744073709551:616000000",
+        "18446744073709551:999000000",
+        "18446744073709552:0",
+        "18446744073709553:500000000",
+        "36893488147419103:300000000",
+        "9223372036854775808:0",
+        "18446744073709551615:999999999",
+    ];
     if from_client {
         out.push(format!("OP client_new {}", cl.bootstrap()));
         let mut sets: Vec<String> = vec![
@@ -881,7 +976,7 @@ pub fn gen_c16(rng: &mut Rng, d: &mut Dist, _idx: u64) -> Vec<String> {
             format!("crc {}", rng.below(2)),
             format!("storage {}", rng.pick(&["none", "zk", "kafka"])),
             format!("retry_max {}", rng.below(4)),
-            format!("idle_ms {}", rng.pick(&[0u64, 1, 540000, 86_400_000])),
+            format!("idle_ms {}", rng.pick(&[0u64, 60_000, 540000, 86_400_000])),
             "retry_backoff_ms 0".to_string(),
         ];
         rng.shuffle(&mut sets);
@@ -904,7 +999,7 @@ pub fn gen_c16(rng: &mut Rng, d: &mut Dist, _idx: u64) -> Vec<String> {
             format!("retrylimit={}", rng.pick(&[0i64, 1 << 20])),
             format!("crc={}", rng.below(2)),
             format!("storage={}", rng.pick(&["none", "zk", "kafka"])),
-            format!("idle={}", rng.pick(&[0u64, 1, 540000])),
+            format!("idle={}", rng.pick(&[0u64, 60_000, 540000])),
             format!("clientid={}", h(*rng.pick(&["cid", "", "other"]))),
         ];
         let mut chosen = shuffled(rng, &all);
@@ -936,7 +1031,7 @@ pub fn gen_c16(rng: &mut Rng, d: &mut Dist, _idx: u64) -> Vec<String> {
         let all: Vec<String> = vec![
             format!("compression={}", rng.below(3)),
             format!("acktimeout={}", rng.pick(&durations)),
-            format!("idle={}", rng.pick(&[0u64, 1, 540000])),
+            format!("idle={}", rng.pick(&[0u64, 60_000, 540000])),
             format!("acks={}", rng.pick(&[0i64, 1, -1])),
             format!("clientid={}", h(*rng.pick(&["pid", "", "other"]))),
             format!("partitioner={}", rng.below(5)),
@@ -1170,6 +1265,12 @@ pub fn gen_c06(rng: &mut Rng, d: &mut Dist, _idx: u64) -> Vec<String> {
         }
     }
     bump(d, if any_reachable { "bootstrap-some-reachable" } else { "bootstrap-none-reachable" });
+    // brokers need not list topics and partitions in id order: every entry carries its own id
+    match rng.below(4) {
+        0 => out.push("ORDER rev".into()),
+        1 => out.push(format!("ORDER rot {}", 1 + rng.below(3))),
+        _ => {}
+    }
     out.push(format!("OP client_new {}", boots.iter().map(|b| h(b)).collect::<Vec<_>>().join(",")));
     out.push("OP c load_metadata_all".into());
     out.push("OP c topics".into());
@@ -1882,7 +1983,13 @@ pub fn gen_c15(rng: &mut Rng, d: &mut Dist, _idx: u64) -> Vec<String> {
     let rounds = 1 + rng.below(3);
     for _ in 0..rounds {
         // the stream script for the next call
-        match rng.below(7) {
+        match rng.below(8) {
+            7 => {
+                // a read times out part-way through a reply (after the size, inside the body); the rest arrives late
+                bump(d, "stream-timeout-inside-reply");
+                out.push(format!("H read_chunks {}", ["4,3", "4,1,2", "2,2,5", "4,8,1"][rng.below(4) as usize]));
+                out.push(format!("H timeout_read {}", 1 + rng.below(3)));
+            }
             0 => {
                 bump(d, "stream-short-writes");
                 let cs: Vec<String> = (0..(1 + rng.below(6))).map(|_| (1 + rng.below(40)).to_string()).collect();
